@@ -18,11 +18,11 @@ META = {
   "h_monotone_field": {"kind": "L",
     "functions": ["Line.__init__", "Construction._init_field_value", "Field._parse_gfa_field", "<datatype>.decode / unsafe_decode", "Line.__str__"],
     "bounds": "12 (record, focus field) templates x every string of length <= 2 (thorough: <= 3 for every third template) over a 14-character alphabet (letters, signs, digits, '$', ',', ':', space, DEL, a non-ASCII letter; indices chosen by the solver) in the focus field x level k in 1..3: accepted at k => accepted at k-1 (down to 0), and whenever two levels accept they write the same text",
-    "timeout": {"quick": 400, "thorough": 1200}, "parts": {"quick": 16, "thorough": 16}},
+    "timeout": {"quick": 400, "thorough": 900}, "parts": {"quick": 16, "thorough": 16}},
   "h_assignment": {"kind": "L",
     "functions": ["FieldData.set/_set_existing_field", "DynamicFields.__setattr__", "Writer.field_to_s", "Validate.validate_field/validate", "Field._validate_gfa_field"],
     "bounds": "12 (line, field) targets (incl. the optional fields var of G and eid of E holding '*') (positional, predefined tag, custom tag of datatypes i, Z, A, f, sequence, position, orientation) x value in {0, 1, -1, 5, 10^12, a mixed list, every string of length <= 1 (quick) / 2 (thorough) over the 14-character alphabet} x level 0..3: invalid values are reported at the assignment at level 3, no later than field_to_s at level 2, by validate_field at every level; valid values are never rejected",
-    "timeout": {"quick": 400, "thorough": 1200}, "parts": {"quick": 16, "thorough": 16}},
+    "timeout": {"quick": 400, "thorough": 900}, "parts": {"quick": 16, "thorough": 16}},
  },
 }
 
